@@ -11,6 +11,7 @@ import Proofs.Lemmas.C04Tok
 import Proofs.Lemmas.C04Sub
 import Proofs.Lemmas.C04Idem
 import Proofs.Lemmas.C04F64
+import Proofs.Lemmas.F64Exact
 
 namespace C04
 open Unit.Tidy
@@ -233,5 +234,11 @@ theorem tidy_idempotent_partial
 explicitly (kernel evaluation): ±0, ±Inf, 1, the smallest subnormal, 1e-9, 1e6, 5e300 -/
 example : [F64.posZero, F64.negZero, F64.posInf, F64.negInf, F64.one, 1, f1em9, f1e6, 0x7E57E4C0E3F2F5E4].all
     (fun x => F64.mul x F64.one == x) = true := by decide +kernel
+
+/-- **tidy_idempotent** — normalising an already normalised measurement changes nothing, for
+every unit (all byte strings) and every float64 value including NaN, ±0, ±Inf and subnormals.
+Full strength: the float fact x·1.0 = x is `F64.mul_one` (Proofs/Lemmas/F64Exact.lean). -/
+theorem tidy_idempotent (v : F64.Bits) (u : Bytes) : tidy (tidy v u).1 (tidy v u).2 = tidy v u :=
+  tidy_idempotent_partial F64.mul_one v u
 
 end C04
